@@ -1922,7 +1922,7 @@ impl SourceTextModule {
         // 25. Remove moduleContext from the execution context stack.
         let frame = context
             .vm
-            .pop_frame()
+            .pop_frame_and_truncate()
             .js_expect("There should be a call frame")?;
 
         let env = frame
@@ -2007,7 +2007,7 @@ impl SourceTextModule {
         //    b. Perform AsyncBlockStart(capability, module.[[ECMAScriptCode]], moduleContext).
         let result = context.run();
 
-        context.vm.pop_frame();
+        context.vm.pop_frame_and_truncate();
 
         //     f. If result is an abrupt completion, then
         if let CompletionRecord::Throw(err) = result {
